@@ -15,6 +15,22 @@ use tracing::{field, info_span};
 
 static SESSION_COUNTER: std::sync::atomic::AtomicU64 = std::sync::atomic::AtomicU64::new(1);
 
+/// Verification hooks (compiled only with `--features verif-hooks`)
+#[cfg(feature = "verif-hooks")]
+pub mod verif_hooks {
+    use std::sync::atomic::{AtomicUsize, Ordering};
+
+    /// How many of the next unbuffered `write_frame` calls are descheduled between taking the pending frames and
+    /// taking the writer lock (set by a replay test; 0 = never)
+    pub static WRITE_FRAME_PAUSES: AtomicUsize = AtomicUsize::new(0);
+
+    pub(crate) fn take_write_frame_pause() -> bool {
+        WRITE_FRAME_PAUSES
+            .fetch_update(Ordering::SeqCst, Ordering::SeqCst, |n| n.checked_sub(1))
+            .is_ok()
+    }
+}
+
 /// Largest payload one frame can carry (16-bit length field)
 const MAX_FRAME_PAYLOAD: usize = u16::MAX as usize;
 use tokio_util::codec::Decoder;
@@ -925,7 +941,10 @@ impl Session {
         // Verification hook (compiled only with `--features verif-hooks`): a scheduling point between taking the
         // pending frames out of the buffer and taking the writer lock inside write_with_padding
         #[cfg(feature = "verif-hooks")]
-        tokio::task::yield_now().await;
+        if verif_hooks::take_write_frame_pause() {
+            tokio::task::yield_now().await;
+            tokio::task::yield_now().await;
+        }
 
         // Write with padding if enabled
         self.write_with_padding(buffer).await
